@@ -64,6 +64,11 @@ func (r Rounder) ShouldAddOne(result *BigInt, neg bool, half int) bool {
 // Round sets d to rounded x.
 func (r Rounder) Round(c *Context, d, x *Decimal, disableIfPrecisionZero bool) Condition {
 	d.Set(x)
+	if x.Form != Finite {
+		// Infinities and NaNs are not rounded; their coefficient and exponent
+		// fields are meaningless (an overflow leaves stale values there).
+		return 0
+	}
 	nd := x.NumDigits()
 	xs := x.Sign()
 	var res Condition
